@@ -154,23 +154,23 @@ PROPS = {
 MANIFEST_TEXT = {
     "C19": {
         "technique": "generated-configuration testing: enumerated lattice of feature-macro sets x {explicit, AVEL_AUTO_DETECT} x {g++, clang++} x {C++11..20} and (thorough) Hypothesis-drawn random macro subsets shrunk to a minimal failing set; oracle = compiler/linker exit status of three generated programs (include-only, static_asserts on the documented type system, generic program over a fixed operation table that is compiled and linked)",
-        "level": "Generated-input search over build configurations: P1 includes <avel/Avel.hpp> + <avel/Aligned_allocator.hpp>; P2 static_asserts that exactly the documented widths are complete types (and neighbouring widths are not), sizeof == N*sizeof(T), trivially copyable, masks trivial, width constants, vecNx*/vecMx*/maskNx*/arrNx* alias identities, max width == widest provided, and under AUTO_DETECT the same types as naming the compiler-defined feature macros explicitly; P3 instantiates every operation of the width-1 type for every wider type of the element (incl. Denominator<V>, convert, allocator, prefetch) and must link. Each distinct error (header location, failed assertion, undefined symbol) is reported separately.",
+        "level": "Generated-input search over build configurations: P1 includes <avel/Avel.hpp> + <avel/Aligned_allocator.hpp>; P2 static_asserts that exactly the documented widths are complete types (and neighbouring widths are not), sizeof == N*sizeof(T), trivially copyable, masks trivial, width constants, vecNx*/vecMx*/maskNx*/arrNx* alias identities, max width == widest provided, and under AUTO_DETECT the same types as naming the compiler-defined feature macros explicitly; P3 instantiates every operation of the width-1 type for every wider type of the element (incl. Denominator<V>, convert, allocator, prefetch) and must link. Each distinct error (header location, failed assertion, undefined symbol) is reported separately. The link program is built from two translation units (one definition rule) and, in the quick tier too, for every minimal macro set that selects each #if arm and for the arms only another compiler / standard selects.",
         "note": "Trusted: g++ 12 / clang++ 14 as the oracle; flags are derived from the documented implications. The operation table is hand-written from the pinned width-1 API (binary operator% on floats is not offered by width 1 and is not in it). MSVC/ICPX/ARM configurations cannot be built here.",
         "engine": "enumerator + Hypothesis (build configurations)",
     },
     "C20": {
         "technique": "property-based testing / fault injection by placement: enumerated + rapidcheck-generated prefetch calls with pointers at every cache-line offset, next to and inside PROT_NONE pages, null and misaligned, counts 0..3 pages, all cache levels, typed and untyped; signal guard + arena checksum + /proc/self/maps protection check",
-        "level": "Generated-input search over (overload, cache level, pointer placement, offset, n) for prefetch_read / prefetch_write in builds {no macro, AVEL_X86, AVEL_SSE2} x {g++, clang++} x {-O0, -O2 (+ -O1 in thorough)}: the call must return without SIGSEGV/SIGBUS/SIGILL (a fault becomes a failing Case), every byte of the accessible arena must still hold its sentinel and the kernel's view of the six arena pages' protections must be unchanged.",
+        "level": "Generated-input search over (overload, cache level, pointer placement, offset, n) for prefetch_read / prefetch_write in builds {no macro, AVEL_X86, AVEL_SSE2} x {g++, clang++} x {-O0, -O2 (+ -O1 in thorough)}: the call must return without SIGSEGV/SIGBUS/SIGILL (a fault becomes a failing Case), every byte of the accessible arena must still hold its sentinel and the kernel's view of the six arena pages' protections must be unchanged. Pointers in the first and the last cache line of the address space and builds with non-default AVEL_Ln_CACHE_LINE_SIZE values are included; the kernel's page protections are read back after every third Case.",
         "note": "Trusted: mmap/mprotect, /proc/self/maps, host CPU (prefetch instructions never fault architecturally), compilers. n is bounded to three pages because the loop is linear in n. AVEL_PREFETCH alone cannot be built (Verify_capabilities tests a macro no compiler defines); that is C19's finding.",
     },
     "C18": {
         "technique": "model-based (stateful) property testing: rapidcheck-generated and enumerated allocate/deallocate/fill/verify/rebind/std::vector histories on 16 Aligned_allocator<T,A> instantiations, checked after every command against a shadow map of live ranges, in the three implementations selected by the build, each also under ASan+UBSan and UBSan-trap; libFuzzer target in the thorough tier",
-        "level": "Generated-history search: histories (shrunk as one value) of allocate(n) with n biased to 0, 1, odd byte sizes and exact multiples of A, deallocation in arbitrary order, re-fill, reallocation moves, rebound allocators and std::vector growth/copy/move/swap; invariants after every command: pointer aligned to A, live ranges pairwise disjoint, every byte (including the last) of every live block still holds its pattern; every block freed exactly once with its own n. Builds: no macro C++11/14 (over-allocation), no macro C++17/20 (aligned_alloc), AVEL_SSE2 (_mm_malloc); ASan reports (overflow, invalid free, leak) kill the process inside the Case and become a violation with that history as replay; UBSan runs in trap mode so undefined behaviour is a failing, shrinkable Case.",
+        "level": "Generated-history search: histories (shrunk as one value) of allocate(n) with n biased to 0, 1, odd byte sizes and exact multiples of A, deallocation in arbitrary order, re-fill, reallocation moves, rebound allocators and std::vector growth/copy/move/swap; invariants after every command: pointer aligned to A, live ranges pairwise disjoint, every byte (including the last) of every live block still holds its pattern; every block freed exactly once with its own n. Builds: no macro C++11/14 (over-allocation), no macro C++17/20 (aligned_alloc), AVEL_SSE2 (_mm_malloc); ASan reports (overflow, invalid free, leak) kill the process inside the Case and become a violation with that history as replay; UBSan runs in trap mode so undefined behaviour is a failing, shrinkable Case. Builds include x86 configurations without any SIMD macro (AVEL_X86 only, POPCNT+LZCNT) at C++11/14.",
         "note": "Trusted: ASan/UBSan, glibc malloc, compilers. T of size 1,2,4,8,16,64 and A from alignof(T) to 4096 are a fixed pool of 16 instantiations, not all combinations. Block sizes are capped at 4 KiB (quick) / 64 KiB (thorough). Allocation failure (nullptr from malloc) is not injected.",
     },
     "C17": {
         "technique": "property-based testing over a fixed table (snapshot of the pinned commit) of the 108 provided conversions + identities + bit_cast pairs: exhaustive 8/16-bit lane values and all mask patterns for N<=16, lattices + rapidcheck otherwise; static_cast-per-lane oracle, constructor == convert, round trip",
-        "level": "Generated-input search over (source type, destination type, form) for convert<>, the converting constructors Vector<T,N>(Vector<U,N>) / Vector_mask<T,N>(Vector_mask<U,N>), the reverse conversion of the converted value, convert<V>(V), avel::bit_cast between same-size vectors, between masks of identical representation and between scalars; masks are read back through the primitive, extract<I> and count, and a non-canonical representation after a conversion is a failure.",
+        "level": "Generated-input search over (source type, destination type, form) for convert<>, the converting constructors Vector<T,N>(Vector<U,N>) / Vector_mask<T,N>(Vector_mask<U,N>), the reverse conversion of the converted value, convert<V>(V), avel::bit_cast between same-size vectors, between masks of identical representation and between scalars; masks are read back through the primitive, extract<I> and count, and a non-canonical representation after a conversion is a failure. bit_cast is also exercised between every two vector / mask types with the same primitive type and object size (bytes of the primitive compared, both directions).",
         "note": "Trusted: static_cast as the lane oracle, host CPU, compilers. The table is a committed snapshot: a specialisation deleted from the tree makes the harness fail to link (reported as a broken check here and as a violation by C19), never a silently smaller test.",
     },
     "C16": {
@@ -180,7 +180,7 @@ MANIFEST_TEXT = {
     },
     "C14": {
         "technique": "property-based testing: exhaustive 8-bit (quick) / 16-bit (thorough) (n, d) pairs, per-divisor boundary numerators (multiples of d nearest the range ends +-1) over the divisor lattice + rapidcheck, __int128 division oracle + q*d+r==n, SIGFPE guard; libFuzzer target in the thorough tier",
-        "level": "Generated-input search over (n, d), d != 0, for the eight scalar Denominator<T> types and the forms div, /, %, /=, %=, value() in every configuration incl. the scalar instruction-set ladders (none/X86/POPCNT/LZCNT/BMI/BMI2 x g++/clang++ x -O1/-O2): d from {+-1, +-2^k, +-(2^k+-1), MAX, MIN, random}, n from {0, +-1, MIN, MAX, k*d and k*d+-1 at both range ends, random}; construction and use run under the signal guard.",
+        "level": "Generated-input search over (n, d), d != 0, for the eight scalar Denominator<T> types and the forms div, /, %, /=, %=, value() in every configuration incl. the scalar instruction-set ladders (none/X86/POPCNT/LZCNT/BMI/BMI2 x g++/clang++ x -O1/-O2): d from {+-1, +-2^k, +-(2^k+-1), MAX, MIN, random}, n from {0, +-1, MIN, MAX, k*d and k*d+-1 at both range ends, random}; construction and use run under the signal guard. Divisors include the reciprocal family d = floor(2^k/c)+1 (c in [2^(B/2-1), 2^(B/2)), 16 000 / 120 000 per 64-bit type), and avel::div_64uhi_by_64u, the 128-by-64-bit division behind every 64-bit multiplier, is compared directly with unsigned __int128 on operands constructed so that a trial digit of the portable long division sits on its correction edge.",
         "note": "Trusted: __int128 oracle, host CPU, compilers. (MIN, -1) is excluded for signed types as the property says. Exhaustive for 8-bit pairs only in the quick tier.",
     },
     "C15": {
@@ -200,13 +200,13 @@ MANIFEST_TEXT = {
     },
     "C11": {
         "technique": "property-based testing: strided (quick) / exhaustive (thorough) sweep of all 2^32 binary32 patterns, stratified binary64 values and lattice + rapidcheck, differential against glibc under the same rounding mode; FP-environment invariant (MXCSR control bits, x87 control word) observed around every call and around a sample of 40 other AVEL operations under each rounding mode and FTZ/DAZ setting",
-        "level": "Generated-input search: every 1031st binary32 pattern with a seed-dependent phase (quick) or all 2^32 (thorough) for ceil/floor/trunc/round and for nearbyint/rint under each of the four rounding modes, every float vector width and the scalar overloads; binary64: every exponent x boundary mantissas, half-integers and neighbours around 2^51..2^53. Comparison: NaN->NaN; integral/infinite inputs must come back as the same number; otherwise numerically equal to libm (a differing zero sign is counted, not flagged, because the statement says 'the same number'). Environment: control state before == after, for the rounding functions and for arithmetic, comparisons, classification, frexp/ldexp/ilogb, integer div/average/etc.",
-        "note": "Trusted: glibc rounding functions and fesetround as reference, host CPU, compilers honouring -frounding-math. ceil/floor/trunc/round are compared in round-to-nearest only (the statement quantifies the four modes over nearbyint/rint). With FTZ/DAZ enabled only the environment is compared, not values.",
+        "level": "Generated-input search: every 1031st binary32 pattern with a seed-dependent phase (quick) or all 2^32 (thorough) for ceil/floor/trunc/round and for nearbyint/rint under each of the four rounding modes, every float vector width and the scalar overloads; binary64: every exponent x boundary mantissas, half-integers and neighbours around 2^51..2^53. Comparison: NaN->NaN; integral/infinite inputs must come back as the same number; otherwise numerically equal to libm (a differing zero sign is counted, not flagged, because the statement says 'the same number'). Environment: control state before == after, for the rounding functions and for arithmetic, comparisons, classification, frexp/ldexp/ilogb, integer div/average/etc. The six rounding functions also run with every FTZ/DAZ combination; values are compared for every lane whose input is not subnormal.",
+        "note": "Trusted: glibc rounding functions and fesetround as reference, host CPU, compilers honouring -frounding-math. ceil/floor/trunc/round are compared in round-to-nearest only (the statement quantifies the four modes over nearbyint/rint). With FTZ/DAZ enabled, lanes with a subnormal input are not compared.",
     },
     "C10": {
         "technique": "property-based testing: float lattice cross products + rapidcheck bit patterns x four rounding modes, differential against the scalar IEEE operation executed in a reference TU compiled without AVEL (-O0 -frounding-math), binary64 second opinion for binary32, per build configuration",
-        "level": "Generated-input search over operand pairs (every exponent x boundary mantissas, zeros, subnormals, infinities, quiet/signalling NaNs, halfway cases, random patterns) x {+,-,*,/, compound forms, ++/--, unary minus, sqrt, scalar sqrt} x 4 rounding modes on every float/double vector type incl. width 1, every configuration; results compared bit-for-bit (NaN by NaN-ness; unary minus bit-for-bit incl. NaN payload) with the hardware/glibc scalar result under the same mode; binary32 + - * / sqrt also against a binary64 recomputation rounded once (disagreement between the two oracles = harness error, not a violation); MXCSR/x87 control words compared before/after.",
-        "note": "Trusted: host FPU and glibc as the IEEE reference, fesetround, compilers honouring -frounding-math. Pairs are sampled (lattice cross product + random), never exhaustive.",
+        "level": "Generated-input search over operand pairs (every exponent x boundary mantissas, zeros, subnormals, infinities, quiet/signalling NaNs, halfway cases, random patterns) x {+,-,*,/, compound forms, ++/--, unary minus, sqrt, scalar sqrt} x 4 rounding modes on every float/double vector type incl. width 1, every configuration; results compared bit-for-bit (NaN by NaN-ness; unary minus bit-for-bit incl. NaN payload) with the hardware/glibc scalar result under the same mode; binary32 + - * / sqrt also against a binary64 recomputation rounded once (disagreement between the two oracles = harness error, not a violation); MXCSR/x87 control words compared before/after. Two-operator sequences (a*b+c, a*b-c, t*=b; t+=c) are compared with two separately rounded reference operations (a class counts the triples for which a fused multiply-add would differ), also in Clang builds that keep the compiler's floating-point defaults on FMA targets.",
+        "note": "Trusted: host FPU and glibc as the IEEE reference, fesetround, compilers honouring -frounding-math. Pairs are sampled (lattice cross product + random), never exhaustive. g++ builds with the compiler's default -ffp-contract=fast are not checked for fusion across operators: that default fuses plain scalar a*b+c as well.",
     },
     "C08": {
         "technique": "property-based testing: enumerated (every n in 0..width+2 x every element offset in a 64-element window, every lane index) + rapidcheck memory operations against a byte-array memory model with sentinels, under a signal guard, per build configuration incl. -O0",
@@ -215,8 +215,8 @@ MANIFEST_TEXT = {
     },
     "C09": {
         "technique": "property-based testing / fault injection by placement: the C08 operations generated with the addressed element range flush against PROT_NONE guard pages (ending at a page end, starting at a page start, n=0 with the pointer inside the guard page, wild indices in inactive gather/scatter lanes); any signal or changed sentinel outside the addressed bytes fails",
-        "level": "Generated-input search: every n in 0..width+2 for every load/store/gather/scatter form and vector type with the buffer placed against inaccessible pages on either side, plus rapidcheck payloads/indices; oracle: no SIGSEGV/SIGBUS (signal guard turns a fault into a failing Case) and all sentinel bytes outside [p, p+min(n,w)) unchanged.",
-        "note": "Trusted: mmap/mprotect guard pages, host CPU fault behaviour (what this CPU does for masked instructions), compilers. Over-reads that stay inside the same page as addressed bytes (e.g. a full aligned load for aligned_load(p,3)) cannot fault and are not observable by this check; over-writes always are.",
+        "level": "Generated-input search: every n in 0..width+2 for every load/store/gather/scatter form and vector type with the buffer placed against inaccessible pages on either side, plus rapidcheck payloads/indices; oracle: no SIGSEGV/SIGBUS (signal guard turns a fault into a failing Case) and all sentinel bytes outside [p, p+min(n,w)) unchanged. A partial store (all four store forms, n = 1, w/2, w-1) is also repeated while a second thread keeps rewriting and re-reading the elements behind the addressed ones (4000 rounds per Case): a store that reads and rewrites the whole block undoes one of those writes (lost update).",
+        "note": "Trusted: mmap/mprotect guard pages, host CPU fault behaviour (what this CPU does for masked instructions), compilers. Over-reads that stay inside the same page as addressed bytes (e.g. a full aligned load for aligned_load(p,3)) cannot fault and are not observable by this check; over-writes always are. The concurrent-writer operation has no false-alarm path but its detection depends on the interleaving of two threads, which the harness does not control; such failures are reported on first observation (no minimisation, no re-confirmation).",
     },
     "C03": {
         "technique": "model-based (stateful) property testing: rapidcheck-generated and enumerated command histories over four mask registers, compared with an array<bool,N> model through every observer after every command; histories shrink as one value",
